@@ -255,6 +255,19 @@ func genReconf(c *Config, r *rand.Rand) {
 			}
 		}
 	}
+	if r.IntN(3) == 0 {
+		// concurrent requests for the SAME processor (directly against the lifecycle service),
+		// some of them cancelled by their caller while staged or being applied
+		p := ps[r.IntN(len(ps))]
+		for i, n := 0, 1+r.IntN(3); i < n; i++ {
+			rev++
+			a := Action{Client: pick(r, "rc", "rc2", "rc2"), Op: "reconfigure", Arg: p.ID, N: rev, When: pick(r, "acked", "emitted", "written", "now"), Note: fmt.Sprintf("at=%d", r.IntN(total+2))}
+			if r.IntN(2) == 0 {
+				a.Note += " cancel"
+			}
+			plan = append(plan, a)
+		}
+	}
 	if r.IntN(4) == 0 {
 		// reconfigure while a graceful stop is draining
 		plan = append(plan, Action{Client: "stopper", Op: "stop", When: pick(r, "acked", "emitted"), N: r.IntN(total + 1)})
